@@ -3,6 +3,8 @@ package keeper
 // Shared set-up for the cfesignature harnesses (overlaid into x/cfesignature/keeper).
 
 import (
+	"crypto/x509"
+	"encoding/base64"
 	"github.com/chain4energy/c4e-chain/x/cfesignature/types"
 	cryptotypes "github.com/cosmos/cosmos-sdk/crypto/types"
 	sdk "github.com/cosmos/cosmos-sdk/types"
@@ -67,3 +69,49 @@ func verifAddr(s string) sdk.AccAddress {
 	}
 	return a
 }
+
+// ---- uninterpreted models of the cryptographic / encoding primitives used by cfesignature.
+// H = hex(sha256(.)), B64 = base64 decode, Cert = pem+x509 parse, Chk = x509 CheckSignature, JSON field extraction.
+
+//verif:model github.com/chain4energy/c4e-chain/x/cfesignature/util.CalculateHash
+func model_CalculateHash(in string) string { return verif_uf_str("H_sha256hex", in) }
+
+//verif:model (*encoding/base64.Encoding).DecodeString
+func model_b64_DecodeString(enc *base64.Encoding, s string) ([]byte, error) {
+	if !verif_uf_bool("b64_wellformed", s) {
+		return nil, verifErr("illegal base64 data")
+	}
+	return verif_bytes(verif_uf_str("B64_decode", s)), nil
+}
+
+//verif:model github.com/chain4energy/c4e-chain/x/cfesignature/util.GetUserCertificateFromString
+func model_GetUserCertificateFromString(in []byte) (*x509.Certificate, error) {
+	s := verif_bytes_str(in)
+	if !verif_uf_bool("cert_wellformed", s) {
+		return nil, verifErr("failed to parse certificate")
+	}
+	return &x509.Certificate{Raw: verif_bytes(verif_uf_str("Cert_parse", s))}, nil
+}
+
+//verif:model (*crypto/x509.Certificate).CheckSignature
+func model_CheckSignature(c *x509.Certificate, algo x509.SignatureAlgorithm, signed, signature []byte) error {
+	if verif_uf_bool("Chk_signature", verif_bytes_str(c.Raw), int64(algo), verif_bytes_str(signed), verif_bytes_str(signature)) {
+		return nil
+	}
+	return verifErr("x509: signature verification failed")
+}
+
+//verif:model github.com/chain4energy/c4e-chain/x/cfesignature/util.ExtractFieldFromJSON
+func model_ExtractFieldFromJSON(jsonInput string, field string) (string, error) {
+	if !verif_uf_bool("json_wellformed", jsonInput) {
+		return "", verifErr("invalid character in JSON")
+	}
+	// a missing or non-string field yields "" with a nil error (as the real function does)
+	return verif_uf_str("json_field", jsonInput, field), nil
+}
+
+//verif:model crypto/sha256.Sum256
+func model_Sum256(data []byte) [32]byte { return [32]byte{} }
+
+//verif:model encoding/hex.EncodeToString
+func model_hex_EncodeToString(src []byte) string { return verif_uf_str("hex_of_txhash") }
